@@ -43,7 +43,7 @@ def geometry(name, s=1.0, terminals=True, holes=True, probes=True):
         if name == "G2":
             hol = [P("hole", points=circle(0.8, points=24, center=(0.3, 0.2)) * s)]
         term = [
-            P("source", points=box(0.2, 4.0, center=(-3.0, 0.0)) * s),
+            P("source", points=box(0.2, 4.4, center=(-3.0, 0.0)) * s),
             P("drain", points=box(0.2, 3.0, center=(3.0, 0.1)) * s),
         ]
         prob = np.array([(-2.0, 0.3), (2.1, -0.2)]) * s
@@ -52,9 +52,9 @@ def geometry(name, s=1.0, terminals=True, holes=True, probes=True):
         b = P("stem", points=box(1.6, 3.0, points=24, center=(0.4, -2.0)))
         film = P("film", points=a.union(b).resample(61).points * s)
         term = [
-            P("left", points=box(0.2, 2.0, center=(-3.5, 0.0)) * s),
+            P("left", points=box(0.2, 2.4, center=(-3.5, 0.0)) * s),
             P("right", points=box(0.2, 1.4, center=(3.5, 0.2)) * s),
-            P("stem", points=box(1.6, 0.2, center=(0.4, -3.5)) * s),
+            P("stem", points=box(2.0, 0.2, center=(0.4, -3.5)) * s),
         ]
         prob = np.array([(-2.5, 0.1), (2.4, 0.15), (0.5, -2.6)]) * s
     elif name == "G4":  # cross, four terminals
@@ -62,9 +62,9 @@ def geometry(name, s=1.0, terminals=True, holes=True, probes=True):
         b = P("v", points=box(1.6, 6.2, points=42, center=(0.3, 0.1)))
         film = P("film", points=a.union(b).resample(67).points * s)
         term = [
-            P("w", points=box(0.2, 1.8, center=(-3.5, 0.0)) * s),
+            P("w", points=box(0.2, 2.2, center=(-3.5, 0.0)) * s),
             P("e", points=box(0.2, 1.3, center=(3.5, 0.1)) * s),
-            P("n", points=box(1.6, 0.2, center=(0.3, 3.2)) * s),
+            P("n", points=box(2.0, 0.2, center=(0.3, 3.2)) * s),
             P("s", points=box(1.1, 0.2, center=(0.35, -3.0)) * s),
         ]
         prob = np.array([(-2.5, 0.1), (2.4, 0.15)]) * s
@@ -88,7 +88,7 @@ def geometry(name, s=1.0, terminals=True, holes=True, probes=True):
         film = P("film", points=film.points * s)
         hol = [P("hole", points=ellipse(0.7, 0.4, points=18, center=(-2.0, -0.3), angle=20) * s)]
         term = [
-            P("source", points=box(0.2, 3.0, center=(-3.5, 0.0)) * s),
+            P("source", points=box(0.2, 3.4, center=(-3.5, 0.0)) * s),
             P("drain", points=box(0.2, 2.2, center=(3.5, 0.1)) * s),
         ]
         prob = np.array([(-2.8, 0.9), (2.6, 0.2)]) * s
